@@ -35,7 +35,7 @@ fn main() -> Result<(), Box<dyn Error>> {
         }
         xml_xpath::eval::model::Value::Node(nodes) => {
             for node in nodes {
-                replace(node, arg.value.as_str())?;
+                replace(&dom, node, arg.value.as_str())?;
             }
         }
         xml_xpath::eval::model::Value::Number(_) => {
@@ -163,19 +163,26 @@ fn parse_node(node: &str) -> Result<xml_dom::XmlElement, Box<dyn Error>> {
     Ok(dom.borrow().document_element()?)
 }
 
-fn replace(node: xml_dom::XmlNode, value: &str) -> Result<(), Box<dyn Error>> {
+fn replace(
+    dom: &xml_dom::XmlDocument,
+    node: xml_dom::XmlNode,
+    value: &str,
+) -> Result<(), Box<dyn Error>> {
     match node {
         xml_dom::XmlNode::Document(v) => {
             clear_child(v.clone())?;
-            append_child(v, value)?;
+            append_child(dom, v.clone(), value)?;
+            if v.document_element().is_err() {
+                return Err("Specify a root element in `--value` to replace the document.".into());
+            }
         }
         xml_dom::XmlNode::Attribute(v) => {
             clear_child(v.clone())?;
-            append_child(v, value)?;
+            append_child(dom, v, value)?;
         }
         xml_dom::XmlNode::Element(v) => {
             clear_child(v.clone())?;
-            append_child(v, value)?;
+            append_child(dom, v, value)?;
         }
         _ => {
             return Err("Specify XML element not value using XPATH.".into());
@@ -196,29 +203,32 @@ where
     Ok(())
 }
 
-fn append_child<T>(node: T, value: &str) -> Result<(), Box<dyn Error>>
+fn append_child<T>(dom: &xml_dom::XmlDocument, node: T, value: &str) -> Result<(), Box<dyn Error>>
 where
     T: Clone + xml_dom::Node + xml_dom::NodeMut,
 {
     let new_value = parse_node(value)?;
 
     for child in new_value.child_nodes().iter() {
-        append_child_to_tree(node.clone(), child)?;
+        append_child_to_tree(dom, node.clone(), child)?;
     }
 
     Ok(())
 }
 
-fn append_child_to_tree<T>(node: T, child: xml_dom::XmlNode) -> Result<(), Box<dyn Error>>
+// `dom` is the document the new nodes are created in: the owner document of `node`, or `node`
+// itself when the document node was selected (a document has no owner document).
+fn append_child_to_tree<T>(
+    dom: &xml_dom::XmlDocument,
+    node: T,
+    child: xml_dom::XmlNode,
+) -> Result<(), Box<dyn Error>>
 where
     T: Clone + xml_dom::Node + xml_dom::NodeMut,
 {
     match child {
         xml_dom::XmlNode::Attribute(v) => {
-            let mut n = node
-                .owner_document()
-                .unwrap()
-                .create_attribute(v.name().as_str())?;
+            let mut n = dom.create_attribute(v.name().as_str())?;
             n.borrow_mut().set_value(v.value()?.as_str())?;
 
             if let Some(mut attr) = node.attributes() {
@@ -228,48 +238,33 @@ where
             }
         }
         xml_dom::XmlNode::CData(v) => {
-            let n = node
-                .owner_document()
-                .unwrap()
-                .create_cdata_section(v.data()?.as_str());
+            let n = dom.create_cdata_section(v.data()?.as_str());
             node.append_child(n.as_node())?;
         }
         xml_dom::XmlNode::Comment(v) => {
-            let n = node
-                .owner_document()
-                .unwrap()
-                .create_comment(v.data()?.as_str());
+            let n = dom.create_comment(v.data()?.as_str());
             node.append_child(n.as_node())?;
         }
         xml_dom::XmlNode::Element(v) => {
-            let n = node
-                .owner_document()
-                .unwrap()
-                .create_element(v.tag_name().as_str())?;
+            let n = dom.create_element(v.tag_name().as_str())?;
             node.append_child(n.as_node())?;
 
             if let Some(attributes) = v.attributes() {
                 for descendant in attributes.iter() {
-                    append_child_to_tree(n.clone(), descendant.as_node())?;
+                    append_child_to_tree(dom, n.clone(), descendant.as_node())?;
                 }
             }
 
             for descendant in v.child_nodes().iter() {
-                append_child_to_tree(n.clone(), descendant)?;
+                append_child_to_tree(dom, n.clone(), descendant)?;
             }
         }
         xml_dom::XmlNode::EntityReference(v) => {
-            let n = node
-                .owner_document()
-                .unwrap()
-                .create_entity_reference(v.node_name().as_str())?;
+            let n = dom.create_entity_reference(v.node_name().as_str())?;
             node.append_child(n.as_node())?;
         }
         xml_dom::XmlNode::Text(v) => {
-            let n = node
-                .owner_document()
-                .unwrap()
-                .create_text_node(v.data()?.as_str());
+            let n = dom.create_text_node(v.data()?.as_str());
             node.append_child(n.as_node())?;
         }
         _ => {
